@@ -311,6 +311,11 @@ def render(case, rng):
                 right, op = {"value": lst}, rng.choice(["ONE_OF", "NONE_OF"])
             else:
                 left, op = {"value": lst}, rng.choice(["CONTAINS", "DOES_NOT_CONTAIN"])
+        # the optional operand property "context" (TEMPLATE / RUNTIME) changes nothing about which action a
+        # dependency waits for
+        for side in (left, right):
+            if "ref" in side and side["ref"].startswith("action:") and rng.random() < 0.2:
+                side["context"] = "RUNTIME"
         obj = {"compare": {"left": left, "right": right, "operator": op}}
         if rng.random() < 0.3:
             obj["description"] = "dependency %d" % k
